@@ -22,6 +22,9 @@ mod iface;
 mod socket;
 mod timer;
 
+#[cfg(libp2p_verif)]
+pub use iface::verif;
+
 use std::{
     cmp,
     collections::{
